@@ -119,6 +119,41 @@ func keySwitchCases(fi *FuncInfo, owner string) ([]keyCase, bool, *ast.RangeStmt
 						return true
 					})
 				}
+				if fld == nil {
+					// `dst = &x.F` in the case, one shared `Unmarshal(v, dst)` after the switch
+					for _, st := range cc.Body {
+						as, ok := st.(*ast.AssignStmt)
+						if !ok || len(as.Lhs) != 1 || len(as.Rhs) != 1 {
+							continue
+						}
+						u, ok := ast.Unparen(as.Rhs[0]).(*ast.UnaryExpr)
+						if !ok || u.Op != token.AND {
+							continue
+						}
+						fs, ok := asFieldSel(info, u.X)
+						if !ok || fs.Owner != owner {
+							continue
+						}
+						dst := objOf(info, as.Lhs[0])
+						if dst == nil {
+							continue
+						}
+						ast.Inspect(rs.Body, func(x ast.Node) bool {
+							call, ok := x.(*ast.CallExpr)
+							if !ok || len(call.Args) < 2 || objOf(info, call.Args[1]) != dst {
+								return true
+							}
+							nm := calleeVarName(info, call)
+							if f := callee(info, call); f != nil {
+								nm = f.Name()
+							}
+							if strings.Contains(nm, "Unmarshal") {
+								fld = fs.Field
+							}
+							return true
+						})
+					}
+				}
 				for _, v := range cc.List {
 					if tv, ok := info.Types[v]; ok && tv.Value != nil && tv.Value.Kind() == constant.String {
 						out = append(out, keyCase{constant.StringVal(tv.Value), fld, cc.Pos(), cc.Body})
